@@ -622,16 +622,22 @@ func errReturned(fn *ssa.Function, c ssa.CallInstruction) bool {
 	}
 	nres := fn.Signature.Results().Len()
 	for _, alt := range ReturnAlts(fn, nres-1) {
-		if !isErrOf(alt.Val) {
+		if isErrOf(alt.Val) {
+			return true
+		}
+		// wrapped: fmt.Errorf("...%w", err) / errors.Join(.., err) on the err != nil edge
+		if isNilConst(alt.Val) {
 			continue
 		}
-		// returned on the err != nil edge (or unconditionally)
+		onErrEdge := false
 		for _, rel := range relsOfConds(alt.Conds) {
 			if isErrOf(rel.L) && isNilConst(rel.R) && rel.Op == "!=" {
-				return true
+				onErrEdge = true
 			}
 		}
-		return true
+		if onErrEdge && Derives(alt.Val, isErrOf) {
+			return true
+		}
 	}
 	return false
 }
